@@ -5,7 +5,7 @@
 From AS Require Import Base Effects.
 From AS.Spec Require Import Terminal.
 From AS.Model Require Import Sgr.
-From AS.Proofs Require Import GenCodeTable SgrProofs.
+From AS.Proofs Require Import GenCodeTable SgrProofs GenFns.
 
 (* the repository's code table and the specification's terminal classify every code alike *)
 Theorem C18_table : forall c : N, gen_class c = spec_class c.
@@ -55,3 +55,11 @@ Proof. vm_compute. reflexivity. Qed.
 Example C18_witness_F4 :
   pgs_codes [38; 5; 256; 1]%N false = OK [[49]%N].
 Proof. vm_compute. reflexivity. Qed.
+
+(* the test by which the code recognises the start of an extended-colour group
+   (_AnsiControlFn.seq_starts_with_fn, re-translated from the Python source on every run) is a prefix test
+   against the function's setup sequence *)
+Theorem C18_group_start_is_prefix_test : forall setup seq : list Z,
+  AS.Gen.Fns.gen_seq_starts_with setup seq = true <-> firstn (length setup) seq = setup.
+Proof. exact seq_starts_with_is_prefix. Qed.
+Print Assumptions C18_group_start_is_prefix_test.
